@@ -36,6 +36,30 @@ def kontHeld : Kont K V → List Lk
   | .hop _ _ => []
   | .paused => []
 
+/-- the mutex a continuation acquires when it is resumed (`none`: it resumes from a yield) -/
+def kontLock : Kont K V → Option Lk
+  | .roTree _ _ => some .tree
+  | .roNode _ _ _ want => some (.node want)
+  | .upTree _ _ _ => some .tree
+  | .upRoot _ _ _ r => some (.node r)
+  | .upRootSib _ _ _ _ sib => some (.node sib)
+  | .upChild _ _ _ _ _ child => some (.node child)
+  | .upSib _ _ _ _ _ sib => some (.node sib)
+  | .upCallback _ _ _ _ => none
+  | .delTree _ => some .tree
+  | .delRoot _ r => some (.node r)
+  | .delLeft _ _ _ _ left _ => some (.node left)
+  | .delChild _ _ _ _ _ child _ => some (.node child)
+  | .delRight _ _ _ right _ => some (.node right)
+  | .hop _ next => some (.node next)
+  | .paused => none
+
+/-- a park names exactly the mutex its continuation will acquire -/
+def ParkLockOk : Park K V → Prop
+  | .want l k => kontLock k = some l
+  | .yielded k => kontLock k = none
+  | _ => True
+
 def parkHeld : Park K V → List Lk
   | .start => []
   | .want _ k => kontHeld k
@@ -56,7 +80,7 @@ def ParkPre (cur : Option (Option Nat × Int)) : Park K V → Prop
 /-- outcome of a block is consistent with the bookkeeping (up to the order in which
     the held list records the locks) -/
 def FlowOk (s : St K V) : Flow K V → Prop
-  | .park p => List.Perm s.held (cursorLocks s.cursor ++ parkHeld p) ∧ ParkPre s.cursor p
+  | .park p => List.Perm s.held (cursorLocks s.cursor ++ parkHeld p) ∧ ParkPre s.cursor p ∧ ParkLockOk p
   | .done _ => List.Perm s.held (cursorLocks s.cursor)
   | .panic => True
 
@@ -98,7 +122,7 @@ theorem roArrive_ok (P : Params K) (t : Nat) (s : St K V) (sc : Bool) (key : K) 
       · trivial
       · split
         · trivial
-        · simpa [FlowOk, parkHeld, kontHeld, ParkPre, KontPre, hc] using h1
+        · simpa [FlowOk, parkHeld, kontHeld, ParkPre, KontPre, ParkLockOk, kontLock, hc] using h1
 
 theorem upLeaf_ok (P : Params K) (t : Nat) (s : St K V) (key : K) (f : Option V → V) (y : Option Bool) (n : Nat)
     (l : Leaf K V) (hh : List.Perm s.held [.node n]) (hc : cursorLocks s.cursor = []) :
@@ -107,7 +131,7 @@ theorem upLeaf_ok (P : Params K) (t : Nat) (s : St K V) (key : K) (f : Option V 
   split
   · trivial
   · split
-    · simpa [FlowOk, parkHeld, kontHeld, ParkPre, KontPre, hc] using hh
+    · simpa [FlowOk, parkHeld, kontHeld, ParkPre, KontPre, ParkLockOk, kontLock, hc] using hh
     · simp only [FlowOk, rel_held, rel_cursor, note_held, note_cursor, hc]
       exact perm_erase hh
     · simp only [FlowOk, rel_held, rel_cursor, hc]
@@ -126,7 +150,7 @@ theorem upContinue_ok (P : Params K) (t : Nat) (s : St K V) (key : K) (f : Optio
       · simp only
         split
         · trivial
-        · simpa [FlowOk, parkHeld, kontHeld, ParkPre, KontPre, hc] using hh
+        · simpa [FlowOk, parkHeld, kontHeld, ParkPre, KontPre, ParkLockOk, kontLock, hc] using hh
 
 theorem putInner_cursor_irrelevant : True := trivial
 
@@ -147,7 +171,7 @@ theorem upChildArrive_ok (P : Params K) (t : Nat) (s : St K V) (key : K) (f : Op
         · split
           · simp only
             split
-            · simpa [FlowOk, parkHeld, kontHeld, ParkPre, KontPre, hc] using hh
+            · simpa [FlowOk, parkHeld, kontHeld, ParkPre, KontPre, ParkLockOk, kontLock, hc] using hh
             · exact upContinue_ok P t _ key f y child (by simpa using h1) (by simpa using hc)
           · trivial
   · trivial
@@ -164,7 +188,7 @@ theorem upRootArrive_ok (P : Params K) (t : Nat) (s : St K V) (key : K) (f : Opt
   · exact upContinue_ok P t _ key f y root (by simpa using h1) (by simpa using hc)
   · split
     · split
-      · exact (by simpa [FlowOk, parkHeld, kontHeld, ParkPre, KontPre, hc] using hh)
+      · exact (by simpa [FlowOk, parkHeld, kontHeld, ParkPre, KontPre, ParkLockOk, kontLock, hc] using hh)
       · exact upContinue_ok P t _ key f y root h1 hc
     · trivial
 
@@ -235,7 +259,7 @@ theorem delUnwind_ok (P : Params K) (t : Nat) (key : K) (root : Nat) :
       · split
         · split
           · trivial
-          · simpa [FlowOk, parkHeld, kontHeld, ParkPre, KontPre, hc] using hh
+          · simpa [FlowOk, parkHeld, kontHeld, ParkPre, KontPre, ParkLockOk, kontLock, hc] using hh
         · split
           · trivial
           · split
@@ -284,11 +308,11 @@ theorem delGo_ok (P : Params K) (t : Nat) (s : St K V) (key : K) (frames : List 
           · split at heq
             · simp only [Prod.mk.injEq] at heq; obtain ⟨rfl, rfl, _⟩ := heq; trivial
             · simp only [Prod.mk.injEq] at heq; obtain ⟨rfl, rfl, _⟩ := heq
-              simpa [FlowOk, parkHeld, kontHeld, ParkPre, KontPre, hc] using hh
+              simpa [FlowOk, parkHeld, kontHeld, ParkPre, KontPre, ParkLockOk, kontLock, hc] using hh
           · split at heq
             · simp only [Prod.mk.injEq] at heq; obtain ⟨rfl, rfl, _⟩ := heq; trivial
             · simp only [Prod.mk.injEq] at heq; obtain ⟨rfl, rfl, _⟩ := heq
-              simpa [FlowOk, parkHeld, kontHeld, ParkPre, KontPre, hc, optLock] using hh
+              simpa [FlowOk, parkHeld, kontHeld, ParkPre, KontPre, ParkLockOk, kontLock, hc, optLock] using hh
   · rename_i s1 fl frames' small heq
     -- the leaf was processed
     have : s1.held = s.held ∧ s1.cursor = s.cursor ∧ frames' = frames := by
@@ -319,7 +343,7 @@ theorem resume_ok (P : Params K) (t : Nat) (s : St K V) (k : Kont K V)
   | roTree sc key =>
     have hc : cursorLocks s.cursor = [] := hpre
     rw [hc] at hh
-    simp only [resume, FlowOk, parkHeld, kontHeld, ParkPre, KontPre, acq_held, acq_cursor, hc, and_true]
+    simp only [resume, FlowOk, parkHeld, kontHeld, ParkPre, KontPre, ParkLockOk, kontLock, acq_held, acq_cursor, hc, and_true]
     simpa [kontHeld] using perm_acq .tree hh
   | roNode sc key hold want =>
     have hc : cursorLocks s.cursor = [] := hpre
@@ -328,7 +352,7 @@ theorem resume_ok (P : Params K) (t : Nat) (s : St K V) (k : Kont K V)
   | upTree key f y =>
     have hc : cursorLocks s.cursor = [] := hpre
     rw [hc] at hh
-    simp only [resume, FlowOk, parkHeld, kontHeld, ParkPre, KontPre, acq_held, acq_cursor, hc, and_true]
+    simp only [resume, FlowOk, parkHeld, kontHeld, ParkPre, KontPre, ParkLockOk, kontLock, acq_held, acq_cursor, hc, and_true]
     simpa [kontHeld] using perm_acq .tree hh
   | upRoot key f y r =>
     have hc : cursorLocks s.cursor = [] := hpre
@@ -379,7 +403,7 @@ theorem resume_ok (P : Params K) (t : Nat) (s : St K V) (k : Kont K V)
   | delTree key =>
     have hc : cursorLocks s.cursor = [] := hpre
     rw [hc] at hh
-    simp only [resume, FlowOk, parkHeld, kontHeld, ParkPre, KontPre, acq_held, acq_cursor, hc, and_true]
+    simp only [resume, FlowOk, parkHeld, kontHeld, ParkPre, KontPre, ParkLockOk, kontLock, acq_held, acq_cursor, hc, and_true]
     simpa [kontHeld] using perm_acq .tree hh
   | delRoot key r =>
     have hc : cursorLocks s.cursor = [] := hpre
@@ -391,7 +415,7 @@ theorem resume_ok (P : Params K) (t : Nat) (s : St K V) (k : Kont K V)
     simp only [resume]
     split
     · split
-      · simp only [FlowOk, parkHeld, kontHeld, ParkPre, KontPre, acq_held, acq_cursor, hc, optLock, and_true]
+      · simp only [FlowOk, parkHeld, kontHeld, ParkPre, KontPre, ParkLockOk, kontLock, acq_held, acq_cursor, hc, optLock, and_true]
         have := perm_acq (.node left) hh
         simpa [kontHeld] using this
       · trivial
@@ -428,39 +452,39 @@ theorem startOp_ok (t : Nat) (s : St K V) (op : COp K V)
     · trivial
     · rename_i hm
       have hc := hmis (by simpa using hm)
-      simp only [FlowOk, parkHeld, kontHeld, ParkPre, KontPre, List.append_nil]
+      simp only [FlowOk, parkHeld, kontHeld, ParkPre, KontPre, ParkLockOk, kontLock, List.append_nil, and_true]
       exact ⟨hh, hc⟩
   | upd k f y =>
     simp only [startOp]; split
     · trivial
     · rename_i hm
       have hc := hmis (by simpa using hm)
-      simp only [FlowOk, parkHeld, kontHeld, ParkPre, KontPre, List.append_nil]
+      simp only [FlowOk, parkHeld, kontHeld, ParkPre, KontPre, ParkLockOk, kontLock, List.append_nil, and_true]
       exact ⟨hh, hc⟩
   | del k =>
     simp only [startOp]; split
     · trivial
     · rename_i hm
       have hc := hmis (by simpa using hm)
-      simp only [FlowOk, parkHeld, kontHeld, ParkPre, KontPre, List.append_nil]
+      simp only [FlowOk, parkHeld, kontHeld, ParkPre, KontPre, ParkLockOk, kontLock, List.append_nil, and_true]
       exact ⟨hh, hc⟩
   | get k =>
     simp only [startOp]; split
     · trivial
     · rename_i hm
       have hc := hmis (by simpa using hm)
-      simp only [FlowOk, parkHeld, kontHeld, ParkPre, KontPre, List.append_nil]
+      simp only [FlowOk, parkHeld, kontHeld, ParkPre, KontPre, ParkLockOk, kontLock, List.append_nil, and_true]
       exact ⟨hh, hc⟩
   | ns k =>
     simp only [startOp]; split
     · trivial
     · rename_i hm
       have hc := hmis (by simpa using hm)
-      simp only [FlowOk, parkHeld, kontHeld, ParkPre, KontPre, List.append_nil]
+      simp only [FlowOk, parkHeld, kontHeld, ParkPre, KontPre, ParkLockOk, kontLock, List.append_nil, and_true]
       exact ⟨hh, hc⟩
   | pause =>
-    simp only [startOp, FlowOk, parkHeld, kontHeld, ParkPre, KontPre, List.append_nil]
-    exact ⟨hh, trivial⟩
+    simp only [startOp, FlowOk, parkHeld, kontHeld, ParkPre, KontPre, ParkLockOk, kontLock, List.append_nil, and_true]
+    exact hh
   | scan =>
     simp only [startOp]
     split
@@ -473,7 +497,7 @@ theorem startOp_ok (t : Nat) (s : St K V) (op : COp K V)
         · split
           · simp only [FlowOk, rel_held, cursorLocks]
             exact perm_erase hh
-          · simpa [FlowOk, parkHeld, kontHeld, ParkPre, KontPre, cursorLocks] using hh
+          · simpa [FlowOk, parkHeld, kontHeld, ParkPre, KontPre, ParkLockOk, kontLock, cursorLocks] using hh
         · simpa [FlowOk, cursorLocks] using hh
     · simpa [FlowOk] using hh
   | pair =>
@@ -505,7 +529,7 @@ theorem startOp_ok (t : Nat) (s : St K V) (op : COp K V)
 
 /-- the bookkeeping invariant of a thread -/
 def ThreadOk (th : Thread K V) : Prop :=
-  List.Perm th.held (cursorLocks th.cursor ++ parkHeld th.park) ∧ ParkPre th.cursor th.park
+  List.Perm th.held (cursorLocks th.cursor ++ parkHeld th.park) ∧ ParkPre th.cursor th.park ∧ ParkLockOk th.park
 
 theorem loop_ok (t : Nat) (th : Thread K V) :
     ∀ (fuel : Nat) (s : St K V) (fl : Flow K V) (pc : Nat), FlowOk s fl →
@@ -519,7 +543,7 @@ theorem loop_ok (t : Nat) (th : Thread K V) :
     | panic => simp [threadLoop] at hd
     | park p => simpa [threadLoop, ThreadOk, FlowOk] using hf
     | done r =>
-      simp only [threadLoop, ThreadOk, parkHeld, ParkPre, List.append_nil, and_true, note_held, note_cursor]
+      simp only [threadLoop, ThreadOk, parkHeld, ParkPre, ParkLockOk, List.append_nil, and_true, note_held, note_cursor]
       exact hf
   | succ fuel ih =>
     intro s fl pc hf hd
@@ -530,7 +554,7 @@ theorem loop_ok (t : Nat) (th : Thread K V) :
       unfold threadLoop at hd ⊢
       cases hop : th.prog[pc + 1]? with
       | none =>
-        simp only [hop, ThreadOk, parkHeld, ParkPre, List.append_nil, and_true, note_held, note_cursor]
+        simp only [hop, ThreadOk, parkHeld, ParkPre, ParkLockOk, List.append_nil, and_true, note_held, note_cursor]
         exact hf
       | some op =>
         simp only [hop] at hd ⊢
@@ -553,7 +577,7 @@ theorem runThread_ok (P : Params K) (t : Nat) (th : Thread K V) (s0 : St K V)
     simp only [hp] at hd ⊢
     cases hop : th.prog[0]? with
     | none =>
-      simp only [ThreadOk, parkHeld, ParkPre, List.append_nil, and_true]
+      simp only [ThreadOk, parkHeld, ParkPre, ParkLockOk, List.append_nil, and_true]
       simpa [parkHeld] using hh
     | some op =>
       simp only [hop] at hd ⊢
@@ -563,14 +587,14 @@ theorem runThread_ok (P : Params K) (t : Nat) (th : Thread K V) (s0 : St K V)
   | want l k =>
     rw [hp] at hh hpre
     simp only [hp] at hd ⊢
-    exact loop_ok t th _ _ _ _ (resume_ok P t s0 k (by rw [h0, hc0]; exact hh) (by rw [hc0]; exact hpre)) hd
+    exact loop_ok t th _ _ _ _ (resume_ok P t s0 k (by rw [h0, hc0]; exact hh) (by rw [hc0]; exact hpre.1)) hd
   | yielded k =>
     rw [hp] at hh hpre
     simp only [hp] at hd ⊢
-    exact loop_ok t th _ _ _ _ (resume_ok P t s0 k (by rw [h0, hc0]; exact hh) (by rw [hc0]; exact hpre)) hd
+    exact loop_ok t th _ _ _ _ (resume_ok P t s0 k (by rw [h0, hc0]; exact hh) (by rw [hc0]; exact hpre.1)) hd
   | finished =>
     simp only [ThreadOk, hp]
     rw [hp] at hh
-    exact ⟨hh, trivial⟩
+    exact ⟨hh, trivial, trivial⟩
 
 end Gobptree.Conc
